@@ -89,6 +89,11 @@ CutBodiesAll ==
   (* three alternatives: the cut in the middle or the last one, after an alternative that failed or answered *)
   \cup {OrG(<<l1, AndG(<<l2, l3>>), l4>>) : l1 \in {Call(q1(X)), FailG, UnifyG(X, b)}, l2 \in {CutG, Call(r1(X))}, l3 \in {CutG, FailG, Call(q1(X))}, l4 \in {Call(r1(X)), pr(X)}}
   \cup {OrG(<<l1, l2, l3>>) : l1 \in CutLitsS, l2 \in CutLitsS, l3 \in {CutG, Call(r1(X)), FailG}}
+  (* the cut in a LATER alternative of a disjunction to the right of a goal with several answers, reached only when the *)
+  (* conjunction is entered again (the earlier alternative answered first)                                              *)
+  \cup {AndG(<<l1, OrG(<<l2, AndG(<<l3, l4>>)>>)>>) : l1 \in {Call(q1(X)), Call(k1(X))}, l2 \in {pr(X), UnifyG(Y, b), Call(r1(Y))},
+                                                       l3 \in {CutG, Call(r1(X))}, l4 \in {CutG, FailG, Call(q1(X))}}
+  \cup {AndG(<<Call(q1(X)), OrG(<<UnifyG(Y, a), AndG(<<CutG, UnifyG(Y, b)>>)>>), l5>>) : l5 \in {Bip("equal", <<Y, a>>), Bip("equal", <<Y, b>>), Call(r1(X))}}
   \cup {CutG}
 CutBodies == {bd \in CutBodiesAll : HasCutG(bd) \/ (bd.g = "and" /\ \E i \in DOMAIN bd.gs : bd.gs[i] = Call(c1(X)))}
 CalledCut == <<Clause(c1(X), AndG(<<Call(q1(X)), CutG>>)), Fact(c1(c)), Clause(k1(X), Call(q1(X)))>>
@@ -110,7 +115,10 @@ NotInner == {Call(q1(X)), Call(r1(X)), Call(t1(X)), UnifyG(X, b), UnifyG(X, Y), 
              AndG(<<Call(q1(Y)), UnifyG(Y, X)>>), Call(q1(Y)), AndG(<<pr(X), Call(r1(X))>>), NotG(Call(q1(X))),
              (* a conjunction whose first goal succeeds (binding an inner variable) but which fails as a whole *)
              AndG(<<Call(q1(X)), Call(t1(X))>>), AndG(<<Call(q1(X)), FailG>>), AndG(<<Call(q1(Y)), Call(s2(Y, Y))>>),
-             AndG(<<UnifyG(X, b), FailG>>), OrG(<<AndG(<<Call(q1(X)), FailG>>), Call(t1(X))>>)}
+             AndG(<<UnifyG(X, b), FailG>>), OrG(<<AndG(<<Call(q1(X)), FailG>>), Call(t1(X))>>),
+             (* a test AFTER the goal that instantiates its operand (the operand is only aliased when the not is reached) *)
+             AndG(<<Call(q1(X)), Bip("equal", <<X, b>>)>>), AndG(<<Call(q1(X)), Bip("less_than", <<X, b>>)>>),
+             AndG(<<UnifyG(Y, X), Call(r1(Y)), Bip("greater_than", <<X, b>>)>>)}
 NotBodies ==
        {NotG(g) : g \in NotInner}
   \cup {AndG(<<l, NotG(g)>>) : l \in {Call(q1(X)), Call(r1(X)), UnifyG(X, c)}, g \in NotInner}
@@ -229,7 +237,8 @@ ProgsDeep == PQ(DeepProg, DeepQueries)
 (* query variable names reused inside rules, all rules sharing names, var-var   *)
 (* aliasing through heads                                                       *)
 AliasClauses ==
-  { Clause(p1(Z), Call(q1(Z))), Clause(p1(Z), AndG(<<Call(q1(X)), UnifyG(Z, X)>>)),
+  { Clause(p1(Z), Call(q1(Z))), Clause(p1(X), Call(q1(X))),      \* (the same rule under two names: two clauses all the same)
+    Clause(p1(Z), AndG(<<Call(q1(X)), UnifyG(Z, X)>>)),
     Clause(Cx("e", <<X, X>>), NoGoal), Clause(Cx("e", <<X, Y>>), UnifyG(X, Y)),
     Clause(Cx("e", <<X, Y>>), AndG(<<UnifyG(X, Y), UnifyG(Y, X)>>)),
     Clause(Cx("e", <<X, Y>>), AndG(<<UnifyG(X, Z), UnifyG(Y, Z)>>)),
@@ -244,8 +253,14 @@ VA == V("$A") VB == V("$B") VC == V("$C") VD == V("$D") VE == V("$E") VF == V("$
 LateProg == BaseFacts \o
   << Clause(Cx("late", <<X>>), AndG(<<Call(s2(VA, VB)), Call(s2(VC, VD)), Call(s2(VE, VF)), Call(s2(VG, VH)), Call(Cx("pack", <<X>>))>>)),
      Fact(Cx("pack", <<Cx("box", <<V("$Item")>>)>>)), Fact(Cx("pack", <<LstT(<<a>>, V("$Item"))>>)) >>
+(* a fact that leaves a variable of its own inside the caller's binding (box($Item)), then a clause with variables *)
+WrapProg == BaseFacts \o AliasExtra \o
+  << Fact(Cx("pack", <<Cx("box", <<V("$Item")>>)>>)), Fact(Cx("pack", <<LstT(<<a>>, V("$Item"))>>)),
+     Clause(Cx("wr", <<VA, VB>>), AndG(<<Call(Cx("pack", <<VA>>)), Call(Cx("e2", <<VB, c>>))>>)),
+     Clause(Cx("wr2", <<VA, VB>>), AndG(<<Call(Cx("pack", <<VA>>)), Call(Cx("pack", <<VB>>))>>)) >>
 ProgsAlias == PQS({BaseFacts \o AliasExtra \o <<c1_, c2_>> : c1_ \in AliasClauses, c2_ \in AliasClauses}, AliasQueries)
               \cup PQ(LateProg, {Cx("late", <<Z>>), Cx("late", <<X>>)})
+              \cup PQ(WrapProg, {Cx("wr", <<Z, W>>), Cx("wr2", <<Z, W>>), Cx("wr", <<X, Y>>)})
 
 ProgQueries == CASE Slice = "andor" -> ProgsAndOr
                  [] Slice = "cut"   -> ProgsCut
